@@ -95,7 +95,12 @@ const c09PoolSize = 9
 
 var c09Users = []string{"alice", "bob", "carol"}
 
-func clientIP(i int) net.IP { return net.IPv4(10, 0, 1, byte(i+1)) }
+// client addresses; two of them extend another one as a string (10.0.1.1 /
+// 10.0.1.11, 10.0.1.2 / 10.0.1.23) so that prefix instead of equality
+// comparisons of addresses are exposed
+var c09ClientIPs = []net.IP{net.IPv4(10, 0, 1, 1), net.IPv4(10, 0, 1, 2), net.IPv4(10, 0, 1, 11), net.IPv4(10, 0, 1, 23), net.IPv4(10, 0, 1, 3)}
+
+func clientIP(i int) net.IP { return c09ClientIPs[i%len(c09ClientIPs)] }
 
 func c09Gen(r *Rand, tier string, i int) Scenario {
 	sc := &C09Scenario{Zone: map[string][]string{}}
@@ -133,7 +138,7 @@ func c09Gen(r *Rand, tier string, i int) Scenario {
 		}
 		na := r.Intn(4)
 		for a := 0; a < na; a++ {
-			job.AllowFrom = append(job.AllowFrom, PickOf(r, "10.0.1.1", "10.0.1.2", "10.0.1.3", "host-a", "host-b", "host-multi", "host-down", "nosuchname", "localhost"))
+			job.AllowFrom = append(job.AllowFrom, PickOf(r, "10.0.1.1", "10.0.1.2", "10.0.1.3", "10.0.1.1", "10.0.1.2", "10.0.1.11", "host-a", "host-b", "host-multi", "host-down", "nosuchname", "localhost"))
 		}
 		sc.Jobs = append(sc.Jobs, job)
 	}
@@ -145,7 +150,7 @@ func c09Gen(r *Rand, tier string, i int) Scenario {
 	// attempts
 	na := r.Range(2, 10)
 	for a := 0; a < na; a++ {
-		at := C09Attempt{From: r.Intn(3), StartMs: PickOf(r, 0, 0, 0, 1, 10, 100)}
+		at := C09Attempt{From: r.Intn(len(c09ClientIPs)), StartMs: PickOf(r, 0, 0, 0, 1, 10, 100)}
 		switch r.Intn(10) {
 		case 0, 1, 2, 3, 4:
 			at.User = c09Users[r.Intn(nu)]
@@ -331,7 +336,7 @@ func c09Run(t *testing.T, s Scenario, src verifsim.DecisionSource, keep bool) *R
 			w.Net.ZoneFail[name] = true
 		}
 		var nodes []*verifsim.Node
-		for i := 0; i < 3; i++ {
+		for i := 0; i < len(c09ClientIPs); i++ {
 			h := fmt.Sprintf("client%d", i)
 			w.Net.AddHost(h, clientIP(i))
 			nodes = append(nodes, w.Sim.NewNode(h, "client", h))
